@@ -491,12 +491,19 @@ fn instantiate_branch_condition_result_var_declarations_and_matched_or_variant_i
                         // No variable declarations in OR variants.
                         // This also means we don't have tuples because they are created only to extract variables.
                         // In this case we only have to calculate the final condition.
-                        let conditions = conditions.into_iter().flatten().collect_vec();
-                        let condition = match conditions[..] {
-                            [] => None,
-                            _ => Some(build_condition_expression(&conditions[..], &|lhs, rhs| {
-                                instantiate.lazy_or(lhs, rhs)
-                            })),
+                        // An alternative without a condition, e.g., the `_` in `_ | 1`, always matches,
+                        // and so does the whole OR node. Such alternative must not be just left out.
+                        let condition = if conditions.iter().any(|condition| condition.is_none()) {
+                            None
+                        } else {
+                            let conditions = conditions.into_iter().flatten().collect_vec();
+                            match conditions[..] {
+                                [] => None,
+                                _ => Some(build_condition_expression(
+                                    &conditions[..],
+                                    &|lhs, rhs| instantiate.lazy_or(lhs, rhs),
+                                )),
+                            }
                         };
 
                         (condition, vec![], vec![])
